@@ -835,9 +835,45 @@ def getSymOp(s):
         for Rpart in eqparts[1::2]:
             R[i, :] += symvec[Rpart.lower()]
         for tpart in eqparts[::2]:
-            t[i] += eval("1.0*%s+0" % tpart)
+            t[i] += _parseSymOpTranslation(tpart)
     t -= numpy.floor(t)
     rv = SymOp(R, t)
+    return rv
+
+
+_rx_symop_number = r"(?:\d+(?:\.\d*)?|\.\d+)(?:[eE][-+]?\d+)?(?:/\d+(?:\.\d*)?)?"
+_rx_symop_translation = re.compile(r"(?:[-+]?%s(?:[-+]%s)*)?\Z" % (_rx_symop_number, _rx_symop_number))
+_rx_symop_term = re.compile(r"([-+]?(?:\d+(?:\.\d*)?|\.\d+)(?:[eE][-+]?\d+)?)(?:/(\d+(?:\.\d*)?))?")
+
+
+def _parseSymOpTranslation(tpart):
+    """Convert the constant part of a symmetry operation to float.
+
+    Parameters
+    ----------
+    tpart : str
+        Sum of signed numbers or fractions such as ``'1/2'``, ``'-1/4'``,
+        ``'+0.5'`` or an empty string.
+
+    Returns
+    -------
+    float
+        The translation value.
+
+    Raises
+    ------
+    ValueError
+        When `tpart` is not a sum of numbers or fractions.
+    """
+    if not _rx_symop_translation.match(tpart):
+        emsg = "Invalid translation term %r in symmetry operation." % tpart
+        raise ValueError(emsg)
+    rv = 0.0
+    for num, denom in _rx_symop_term.findall(tpart):
+        if denom and float(denom) == 0:
+            emsg = "Zero denominator in translation term %r." % tpart
+            raise ValueError(emsg)
+        rv += float(num) / float(denom) if denom else float(num)
     return rv
 
 
